@@ -1,4 +1,4 @@
-CONSTANTS MaxN = 6  Sizes = {0,1}  Fmts = {"fasta","fastq","json","csv"}
+CONSTANTS MaxN = 7  Sizes = {0,1}  Fmts = {"fasta","fastq","json","csv"}
 INIT Init
 NEXT Next
 INVARIANTS TypeOK EmitsInOrderExactlyOnce BufferExact ClosedOnlyAfterLastChunk FinalOutput JsonWellFormed CsvWellFormed Export
